@@ -305,7 +305,7 @@ def run(ctx):
 
   # 4. seeded random files ---------------------------------------------------------------------------------------
   for _ in range(8000 if thorough else 900):
-    text, opts, feat = V.gen_file(rng)
+    text, opts, feat = V.gen_file(rng, maxcues=3 if rng.random() < 0.97 else 40)      # now and then a file with dozens of cues
     record(recs, meta, "random", text, opts, {"feat": feat})
 
   # 5. round trip: outputs of the VTT writer under every configuration ------------------------------------------
